@@ -70,6 +70,7 @@ const (
 	cStarOverlap
 	cProbeSkipped
 	cReferenceCompared
+	cDeadlinePassedStatus
 	numCounters
 )
 
@@ -103,6 +104,7 @@ var counterNames = [...]string{
 	cChunkBoundary: "reach.httpbody_chunk_boundary", cDirectCompare: "reach.direct_backend_comparison",
 	cStarOverlap: "reach.kind_star_overlap_unpredicted", cProbeSkipped: "reach.probe_not_judged_after_unpredicted_verdict",
 	cReferenceCompared: "reach.final_state_compared_with_fresh_registration",
+	cDeadlinePassedStatus: "reach.final_status_after_deadline_passed_mid_call",
 }
 
 func counterName(i int) string {
